@@ -1228,15 +1228,16 @@ Qed.
 Lemma scope_end_lg : forall z k, lg J k -> lg J (scope_end z k).
 Proof. intros z k Hk. rewrite scope_end_shape. apply lg_atomic_b. intros blk. apply lg_switch_if. exact Hk. Qed.
 
-Lemma async_fin_lg : forall jt v gs ahs, lg J (async_fin jt v gs ahs).
+Lemma async_fin_lg : forall tls dtor jt v gs ahs, dtor_lg dtor -> lg J (async_fin tls dtor jt v gs ahs).
 Proof.
-  intros jt v gs ahs. unfold async_fin. lg_log99. apply drop_guards_lg. apply detach_all_lg.
-  apply lg_atomic_u. apply lg_ret.
+  intros tls dtor jt v gs ahs Hd. unfold async_fin. lg_log99. apply drop_guards_lg. apply detach_all_lg.
+  apply tls_loop_lg; [exact Hd|]. apply lg_atomic_u. apply lg_ret.
 Qed.
 
-Lemma async_abort_lg : forall jt gs ahs, lg J (async_abort jt gs ahs).
+Lemma async_abort_lg : forall tls dtor jt gs ahs, dtor_lg dtor -> lg J (async_abort tls dtor jt gs ahs).
 Proof.
-  intros jt gs ahs. unfold async_abort. apply drop_guards_lg. apply detach_all_lg. apply lg_atomic_u. apply lg_ret.
+  intros tls dtor jt gs ahs Hd. unfold async_abort. apply drop_guards_lg. apply detach_all_lg.
+  apply tls_loop_lg; [exact Hd|]. apply lg_atomic_u. apply lg_ret.
 Qed.
 
 Lemma comp_lg_all : forall fuel jt bodies b ctx fin outer,
@@ -1338,11 +1339,11 @@ Proof.
       apply lg_switch. apply lg_atomic_b. intros c. lg_log99. apply IHr.
     + (* PASpawn *)
       apply lg_switch. apply lg_spawn.
-      * apply lg_atomic_b. intros ab. destruct ab; [apply async_abort_lg|]. apply IHf. apply async_fin_lg.
+      * apply lg_atomic_b. intros ab. destruct ab; [apply async_abort_lg; exact Hd|]. apply IHf. intros gs' ahs'. apply async_fin_lg. exact Hd.
       * intros tid. apply lg_atomic_u. lg_log99. apply IHr.
     + (* PAwait *)
       destruct (nth_error ahs h) as [[t [|]]|]; try apply lg_panic.
-      apply await_join_lg; [apply async_abort_lg|]. intros res. lg_log99. apply lg_atomic_u. apply IHr.
+      apply await_join_lg; [apply async_abort_lg; exact Hd|]. intros res. lg_log99. apply lg_atomic_u. apply IHr.
     + (* PAbort *)
       destruct (nth_error ahs h) as [[t [|]]|]; try apply lg_panic.
       apply abort_code_lg. lg_log99. apply IHr.
@@ -1350,7 +1351,7 @@ Proof.
       destruct (nth_error ahs h) as [[t [|]]|]; try apply lg_panic.
       apply lg_atomic_u. lg_log99. apply IHr.
     + (* PAYield *)
-      apply await_yield_lg; [apply async_abort_lg|]. lg_log99. apply IHr.
+      apply await_yield_lg; [apply async_abort_lg; exact Hd|]. lg_log99. apply IHr.
     + (* PBlockOn *)
       lg_log99. apply IHf. intros gs' ahs'. apply drop_guards_lg. apply detach_all_lg. lg_log99. apply IHr.
     + (* PIsFinished *)
